@@ -16,8 +16,9 @@ field and module in `Proofs/Vss*.lean`.  `g` is the group's base point.
 Go pointer mutation becomes returned state; every Go `map[uint32]*Response` is a list of
 optional entries indexed by the key (`addResponse` only ever stores keys below
 `len(verifiers)`, so the map is an array of that length; entry `none` = key absent).
-The code modelled is the tree WITH the `fix:` commits c536de3 (nonce length), 4c3770c
-(deal without share / value) and 386c5d2 (session id bound to the commitments).
+The code modelled is the tree WITH the `fix:` commits c536de3 (nonce length), 4c3770c and c743079
+(deal without share / without share value: error before an aggregator exists) and 386c5d2
+(session id bound to the commitments).
 -/
 import DosModel.Model.Util
 
@@ -269,7 +270,8 @@ def processEncryptedDeal (g : P) (v : Verifier S P) (e : EncDeal S P) (rnd : Nat
     match d.share with
     | none => (v, .error .noShare)
     | some sh =>
-      if sh.i ≠ (v.index : Int) then (v, .error .index)
+      if sh.v.isNone then (v, .error .noShare)          -- fix c743079: no aggregator for a share without value
+      else if sh.i ≠ (v.index : Int) then (v, .error .index)
       else
         let sid : Sid P := .h v.dealer v.vs d.commits d.t
         let a0 : Agg S P := match v.agg with
